@@ -212,7 +212,7 @@ func runC05(r *RunCtx) error {
 				f.Proofs = append(f.Proofs, f.MakeProofKey(prover))
 				if p.Chance(1, 2) { // a provider record with whatever the unvalidated messages can put there
 					k.SetProviders(ctx, storagetypes.Providers{Address: prover, Creator: prover, Ip: "https://p.example.com",
-						Totalspace: PickOne(p, []string{"1000000", "0", "-1", "-9223372036854775808", "9223372036854775807", "", "abc"}),
+						Totalspace:      PickOne(p, []string{"1000000", "0", "-1", "-9223372036854775808", "9223372036854775807", "", "abc"}),
 						BurnedContracts: PickOne(p, []string{"0", "7", "", "x", "9223372036854775807"})})
 				}
 				if p.Chance(1, 12) && len(f.Proofs) < 3 { // the same key twice (cannot arise from messages; must still be modelled faithfully)
